@@ -77,6 +77,22 @@ type Case struct {
 	Seed    uint64    `json:"seed,omitempty"`
 	Race    []RaceObs `json:"race,omitempty"`
 	Skipped bool      `json:"skipped,omitempty"` // not run: the stream was stopped after repeated hangs
+	// silent stream: rounds of "a peer that reads and never answers is kicked"
+	Silent []SilentObs `json:"silent,omitempty"`
+}
+
+// SilentObs is one round of the silent stream: k connections under one name
+// whose peer keeps the websocket open, reads, and never answers anything,
+// each kicked by the next; the last one kicked by a real endpoint.
+type SilentObs struct {
+	Round    int    `json:"round"`
+	Silent   int    `json:"silent_peers"`
+	After    string `json:"after"`     // what the name resolves to when everything has settled: new | old | none | other
+	NewAlive bool   `json:"new_alive"` // the real endpoint answered a Hello
+	EndedMs  []int  `json:"ended_ms"`  // per silent connection: when its ServeBack returned, ms after it was kicked (-1: never)
+	Final    string `json:"final"`
+	Notes    []Note `json:"notes"`
+	Hang     string `json:"hang,omitempty"`
 }
 
 // RaceObs is what one round of the race stream observed after quiescence.
@@ -903,10 +919,181 @@ func runRace(c *Case, tap *rpcx.LogTap) {
 	}
 }
 
+// runSilent: the old peer of a kick is unresponsive but connected.
+func runSilent(c *Case) {
+	type conn struct {
+		client *sniproxy.VerifClient
+		ended  chan struct{}
+		at     time.Time
+	}
+	var mu sync.Mutex
+	var conns []*conn
+	var notes []Note
+	var sess int64
+	arrived := make(chan *conn, 8)
+	srv := sniproxy.NewServer(&sniproxy.ServerConfig{
+		OnConnect: func(user string) int64 {
+			mu.Lock()
+			defer mu.Unlock()
+			sess++
+			notes = append(notes, Note{K: "connect", N: nameIndex(user), S: sess})
+			return sess
+		},
+		OnDisconnect: func(user string, s int64) {
+			mu.Lock()
+			defer mu.Unlock()
+			notes = append(notes, Note{K: "disconnect", N: nameIndex(user), S: s})
+		},
+	})
+	srv.VerifSetEndpointCallback(func(name string, cl *sniproxy.VerifClient) {
+		cn := &conn{client: cl, ended: make(chan struct{})}
+		mu.Lock()
+		conns = append(conns, cn)
+		mu.Unlock()
+		arrived <- cn
+	})
+	ts := httptest.NewServer(aries.Func(func(ac *aries.C) error {
+		ac.User = ac.Path
+		mu.Lock()
+		n0 := len(conns)
+		mu.Unlock()
+		err := srv.ServeBack(ac)
+		mu.Lock()
+		if n0 < len(conns) { // (one dial is in flight at a time)
+			conns[n0].at = time.Now()
+			close(conns[n0].ended)
+		}
+		mu.Unlock()
+		return err
+	}))
+	defer ts.Close()
+	addr := ts.Listener.Addr().String()
+	next := func() *conn {
+		select {
+		case cn := <-arrived:
+			return cn
+		case <-time.After(waitBound):
+			return nil
+		}
+	}
+	for round := 0; round < c.Rounds; round++ {
+		o := SilentObs{Round: round, Silent: 1 + (round+c.I)%2}
+		mu.Lock()
+		notes = nil
+		mu.Unlock()
+		var raws []*websocket.Conn
+		var olds []*conn
+		var kicked []time.Time
+		for j := 0; j < o.Silent && o.Hang == ""; j++ {
+			// a raw websocket client: it reads whatever comes and never writes
+			ws, _, err := websocket.DefaultDialer.Dial("ws://"+addr+names[0], nil)
+			if err != nil {
+				o.Hang = "dial of a silent peer: " + err.Error()
+				break
+			}
+			raws = append(raws, ws)
+			go func() {
+				for {
+					if _, _, err := ws.ReadMessage(); err != nil {
+						return
+					}
+				}
+			}()
+			cn := next()
+			if cn == nil {
+				o.Hang = "a silent peer's connection did not reach the server"
+				break
+			}
+			if j > 0 {
+				kicked = append(kicked, time.Now())
+			}
+			olds = append(olds, cn)
+		}
+		var ep *sniproxy.Endpoint
+		var last *conn
+		if o.Hang == "" {
+			var err error
+			ep, err = sniproxy.Dial(context.Background(), &sniproxy.StaticRouter{Host: addr},
+				&sniproxy.DialOption{Path: names[0], WithoutTLS: true})
+			if err != nil {
+				o.Hang = "dial of the new endpoint: " + err.Error()
+			} else if last = next(); last == nil {
+				o.Hang = "the new endpoint's connection did not reach the server"
+			} else {
+				kicked = append(kicked, time.Now())
+			}
+		}
+		// every kicked connection has to end, although its peer never answers
+		for j, cn := range olds {
+			if j >= len(kicked) {
+				break
+			}
+			select {
+			case <-cn.ended:
+				mu.Lock()
+				o.EndedMs = append(o.EndedMs, int(cn.at.Sub(kicked[j])/time.Millisecond))
+				mu.Unlock()
+			case <-time.After(time.Until(kicked[j].Add(waitBound))):
+				o.EndedMs = append(o.EndedMs, -1)
+				if o.Hang == "" {
+					o.Hang = fmt.Sprintf("ServeBack of kicked connection #%d (silent peer) did not return", j+1)
+				}
+			}
+		}
+		which := func() string {
+			cl := srv.VerifLookup(names[0])
+			switch {
+			case cl == nil:
+				return "none"
+			case last != nil && cl.Same(last.client):
+				return "new"
+			}
+			for _, cn := range olds {
+				if cl.Same(cn.client) {
+					return "old"
+				}
+			}
+			return "other"
+		}
+		if last != nil {
+			ctx, cancel := context.WithTimeout(context.Background(), waitBound)
+			msg, err := last.client.Hello(ctx, "ping")
+			cancel()
+			o.NewAlive = err == nil && msg == "ping"
+			o.After = which()
+			go ep.Close()
+			select {
+			case <-last.ended:
+			case <-time.After(waitBound):
+				if o.Hang == "" {
+					o.Hang = "ServeBack of the new endpoint did not return"
+				}
+			}
+			o.Final = which()
+		}
+		// (the notifications are read before the silent peers hang up: a
+		// connection that ends only because its peer finally goes away was not
+		// ended by the kick)
+		mu.Lock()
+		o.Notes = append([]Note{}, notes...)
+		mu.Unlock()
+		for _, ws := range raws {
+			ws.Close()
+		}
+		c.Silent = append(c.Silent, o)
+		if o.Hang != "" {
+			c.Hang = "silent: " + o.Hang
+			break // (the connections of this round may still be alive: later rounds would be confused)
+		}
+	}
+}
+
 func runHistory(c *Case, seed uint64) {
 	c.Events, c.Notes, c.Bg, c.Looks, c.Before = []Ev{}, []Note{}, []BgObs{}, [][]int{}, [][]int{}
 	if c.Stream == "race" {
 		runRace(c, theTap)
+	} else if c.Stream == "silent" {
+		runSilent(c)
 	} else if c.Stream == "free" {
 		runFree(c, seed+uint64(c.I))
 	} else {
@@ -941,6 +1128,7 @@ func main() {
 	n := flag.Int("n", 60, "number of forced histories")
 	nfree := flag.Int("free", 10, "number of free-running histories")
 	nrace := flag.Int("race", 3, "number of race histories (10 rounds each)")
+	nsilent := flag.Int("silent", 1, "number of silent-peer histories (2 rounds each)")
 	script := flag.String("script", "", "JSON file with a list of cases (stream, steps) to run instead")
 	child := flag.Bool("child", false, "child mode")
 	from := flag.Int("from", 0, "first case (child)")
@@ -949,13 +1137,16 @@ func main() {
 	var scripted []Case
 	if *script != "" {
 		scripted = loadScript(*script)
-		*n, *nfree, *nrace = len(scripted), 0, 0
+		*n, *nfree, *nrace, *nsilent = len(scripted), 0, 0, 0
 	}
-	total := *n + *nfree + *nrace
+	total := *n + *nfree + *nrace + *nsilent
 	gen := func(i int) Case {
 		if scripted != nil {
 			x := scripted[i]
 			return Case{I: i, Stream: x.Stream, Steps: x.Steps, Rounds: x.Rounds, Seed: x.Seed}
+		}
+		if i >= *n+*nfree+*nrace {
+			return Case{I: i, Stream: "silent", Steps: []Step{}, Rounds: 2, Seed: *seed}
 		}
 		if i >= *n+*nfree {
 			return Case{I: i, Stream: "race", Steps: []Step{}, Rounds: 10, Seed: *seed}
@@ -992,7 +1183,7 @@ func main() {
 		return
 	}
 	args := []string{"-seed", strconv.FormatUint(*seed, 10), "-n", strconv.Itoa(*n), "-free", strconv.Itoa(*nfree),
-		"-race", strconv.Itoa(*nrace)}
+		"-race", strconv.Itoa(*nrace), "-silent", strconv.Itoa(*nsilent)}
 	if *script != "" {
 		args = append(args, "-script", *script)
 	}
